@@ -40,7 +40,10 @@ CHECKS = {
              "committed since it began; RU/RC never conflict; a successful commit installs the last value of every written key "
              "(deletions included) and changes no other key's committed value; rollback and failed commit keep every committed "
              "value and leave no entry of the transaction; the model's two-phase commit simulates it (C03_commit_simulates) for "
-             "all sequential histories. Tie: conflict-biased seeded histories with autocommit probes after every Commit/Rollback.",
+             "all sequential histories. Tie: conflict-biased seeded histories with autocommit probes after every Commit/Rollback; and below the "
+             "in-memory lists: the persistent mutation events of Commit are observed on the real code (a successful commit of 2-5 keys is ONE "
+             "key-value transaction followed by cleaning triples, a failed one writes no version record - the atomic commit step Durable.v "
+             "models); when they differ the crash points between the separate writes are searched for a partial commit after reopening.",
         design="7/C03", technique="Coq proof on the abstract machine + refinement transfer + differential correspondence run",
         note="Sequential commits only (concurrent commits are C07). " + NOTE_COMMON),
     "C04": dict(
@@ -129,7 +132,8 @@ CHECKS = {
              "snapshot's version and content through every step. The full statement is REFUTED for the faithful model because Begin "
              "is not atomic w.r.t. a multi-key publication (C08_fractured_refuted, D9) and w.r.t. the collector "
              "(C08_gc_horizon_refuted, D10) - known findings, both reproduced deterministically on the real code on every run "
-             "with pause points. Tie: scripted schedules + concurrent groups (Begin/Commit/GC/Set) under the real scheduler whose "
+             "with pause points. Tie: scripted schedules + sequential histories with 2-6 committed versions of a key around two snapshot Begins and "
+             "collection passes (every handle's answers must never change) + concurrent groups (Begin/Commit/GC/Set) under the real scheduler whose "
              "outcome, including repeated snapshot reads, must equal one sequential order of the model. "
              "Tie of the step granularity to the source: the lock/effect skeleton of internal/usecase/core and of the monitor types is REGENERATED from the Go source on every run (fsdbh gen-lockskel) and LockSkelCheck.fsdb_skeleton_ok is re-checked on it; C08_needs_held: sequence numbers are drawn inside the critical section that publishes the version (Store: both write locks; UpdateTx: the committed store's). Probes include GetKeys, a key created and a key deleted after the snapshots; the signatures of D9/D10 for un-paused races are narrow (only the reads of the snapshot begun inside the group may deviate, each to a value some sequential order gives).",
         design="7/C08", technique="Coq proof (stability under all operation sequences) with machine-checked refutation witnesses + scripted schedule replay + translator-regenerated lock skeleton",
